@@ -12,8 +12,10 @@ VARIABLE cur
 (* 0.9.0 < 1.0.0-alpha < 1.0.0-alpha.1 < 1.0.0 = 1.0.0+build < 1.1.0 *)
 Versions == << [core |-> 0, pre |-> 0], [core |-> 1, pre |-> 1], [core |-> 1, pre |-> 2], [core |-> 1, pre |-> 0], [core |-> 1, pre |-> 0], [core |-> 2, pre |-> 0] >>
 VerIdx == 0..Len(Versions)
-ExtraSeqs == IF Variant = "full" THEN {<<>>, <<"aaa-before">>, <<"zzz-after">>, <<"aaa-before", "zzz-after">>} ELSE {<<>>, <<"aaa-before", "zzz-after">>}
-Shapes == {[shape |-> "file", cand |-> "exec"], [shape |-> "file", cand |-> "nonexec"], [shape |-> "dir", cand |-> "exec"],
+(* "embeds-prefix": an extra file whose name merely CONTAINS notation-<name> (it is not a candidate) *)
+ExtraSeqs == IF Variant = "full" THEN {<<>>, <<"aaa-before">>, <<"zzz-after">>, <<"aaa-before", "zzz-after">>, <<"embeds-prefix">>, <<"aaa-before", "embeds-prefix", "zzz-after">>}
+             ELSE {<<>>, <<"aaa-before", "zzz-after">>, <<"embeds-prefix">>}
+Shapes == {[shape |-> "file", cand |-> "exec"], [shape |-> "file", cand |-> "nonexec"], [shape |-> "file", cand |-> "misnamed"], [shape |-> "dir", cand |-> "exec"],
            [shape |-> "dir", cand |-> "nonexec"], [shape |-> "dir", cand |-> "two"], [shape |-> "dir", cand |-> "none"]}
 Sources == {[ver |-> v, meta |-> m, shape |-> sh.shape, cand |-> sh.cand, extras |-> ex, subdir |-> sd, overwrite |-> ow] :
               v \in VerIdx, m \in (IF Variant = "full" THEN {"ok", "invalid", "misnamed"} ELSE {"ok", "misnamed"}), sh \in Shapes, ex \in ExtraSeqs,
